@@ -37,7 +37,7 @@ static void one(int f, size_t n, int al, int v, int slack, int bosmode) {
     size_t dmaxb = (f == 0 || f == 2 || f == 3) ? nb + (size_t)slack * es : nb;
     size_t bos = bosmode == 0 ? BOSU : bosmode == 1 ? dmaxb : dmaxb + 24;
     memcpy(snap, arena, ARENA);
-    static const uint32_t V8[] = { 0, 0x5a, 0xff, 0x80 }, V16[] = { 0, 0x5a5a, 0x1234, 0x8001, 0xfffe, 0xa55a, 0x0100 }, V32[] = { 0, 0x5a5a5a5a, 0x12345678, 0x80000001, 0xfffffffe, 0xa5c3c3a5, 0xff0000ff, 0x01000001, 0x00ff00ff, 0xabcdabcd };   /* incl. byte-palindromic and half-repeating words */
+    static const uint32_t V8[] = { 0, 0x5a, 0xff, 0x80, (uint32_t)-1, (uint32_t)-86, (uint32_t)-128, 0x80000000u /* INT_MIN */ }, V16[] = { 0, 0x5a5a, 0x1234, 0x8001, 0xfffe, 0xa55a, 0x0100 }, V32[] = { 0, 0x5a5a5a5a, 0x12345678, 0x80000001, 0xfffffffe, 0xa5c3c3a5, 0xff0000ff, 0x01000001, 0x00ff00ff, 0xabcdabcd };   /* incl. byte-palindromic and half-repeating words; memset_s also with negative ints (a plain char above 0x7f, -1, INT_MIN): the fill is the value converted to unsigned char */
     char cs[120]; snprintf(cs, sizeof cs, "%d %zu %d %d %d %d", f, n, al, v, slack, bosmode); n_calls++; h_n = 0;
     switch (f) {
     case 0: val = V8[v]; rc = p_memset(d, nb + slack, (int)val, n, bos); break;
@@ -66,6 +66,42 @@ static void one(int f, size_t n, int al, int v, int slack, int bosmode) {
         if (arena[i] != snap[i]) { if (verbose) printf("  byte at offset %ld from dest changed\n", (long)(arena + i - d)); report(FN[f], arena + i < d ? "changes-bytes-before-dest" : "changes-bytes-beyond-n", cls, cs); return; } }
 }
 
+/* large erases in the kinds of memory a secret can live in: private anonymous (heap-like), shared anonymous (shared with a forked peer),
+ * a private and a shared mapping of a file.  After EOK every addressed byte must read as the fill, also through a second mapping of the
+ * same file for the shared kinds (what the peer sees).  Sizes straddle 1 MiB with odd heads and tails. */
+static int kinds_one(int f, size_t bytes, int kind, size_t off) {
+    static const char *KN[] = { "private-anonymous", "shared-anonymous", "private-file", "shared-file" };
+    size_t span = ((bytes + off + 4095) & ~(size_t)4095) + 8192; int fd = -1; unsigned char *m, *peer = NULL;
+    if (kind >= 2) { fd = memfd_create("kind", 0); if (fd < 0 || ftruncate(fd, span)) { fprintf(stderr, "memfd failed\n"); exit(2); }
+        unsigned char *w = mmap(NULL, span, PROT_READ | PROT_WRITE, MAP_SHARED, fd, 0); memset(w, 0xC7, span); munmap(w, span); }
+    m = mmap(NULL, span, PROT_READ | PROT_WRITE, (kind == 0 || kind == 2 ? MAP_PRIVATE : MAP_SHARED) | (kind < 2 ? MAP_ANONYMOUS : 0), fd, 0);
+    if (m == MAP_FAILED) { fprintf(stderr, "mmap failed\n"); exit(2); }
+    if (kind == 3) peer = mmap(NULL, span, PROT_READ, MAP_SHARED, fd, 0);
+    memset(m, 0xC7, span);
+    unsigned char *d = m + 4096 + off; size_t es = ESZ[f], n = bytes / es; int rc = 0; uint32_t val = 0;
+    char cs[120]; snprintf(cs, sizeof cs, "kinds %d %zu %d %zu", f, bytes, kind, off); n_calls++; h_n = 0;
+    switch (f) {
+    case 0: val = 0x5a; rc = p_memset(d, n, 0x5a, n, BOSU); break;
+    case 1: rc = p_memzero(d, n, BOSU); break;
+    case 2: val = 0x5a5a; rc = p_memset16((uint16_t *)d, n * 2, 0x5a5a, n, BOSU); break;
+    case 3: val = 0x5a5a5a5a; rc = p_memset32((uint32_t *)d, n * 4, 0x5a5a5a5a, n, BOSU); break;
+    case 4: rc = p_memzero16((uint16_t *)d, n, BOSU); break;
+    case 5: rc = p_memzero32((uint32_t *)d, n, BOSU); break;
+    default: d[n - 1] = 0; for (size_t i = 0; i + 1 < n; i++) if (!d[i]) d[i] = 0x41; rc = p_strzero((char *)d, n, BOSU); break;
+    }
+    char cls[96]; snprintf(cls, sizeof cls, "large,%s,%s", KN[kind], off % 4096 ? "odd-start" : "page-start");
+    if (verbose) printf("%s bytes=%zu in %s memory, start offset %zu: rc=%d handler=%d\n", FN[f], bytes, KN[kind], off, rc, h_n);
+    int bad = 0;
+    if (rc == 0) {
+        size_t nb = n * es;
+        for (size_t i = 0; i < nb && !bad; i++) { unsigned char want = (unsigned char)(val >> (8 * (i % es))); if (d[i] != want) bad = 1; else if (peer && peer[4096 + off + i] != want) bad = 2; }
+        if (bad) report(FN[f], bad == 1 ? "addressed-byte-not-erased" : "addressed-byte-not-erased-for-the-peer", cls, cs);
+        else { for (size_t i = 0; i < 4096 + off; i++) if (m[i] != 0xC7) { bad = 3; break; } for (size_t i = 4096 + off + nb; i < span && !bad; i++) if (m[i] != 0xC7) bad = 3; if (bad) report(FN[f], "changes-bytes-outside-n", cls, cs); }
+    }
+    if (peer) munmap(peer, span); munmap(m, span); if (fd >= 0) close(fd);
+    return bad;
+}
+
 int main(int argc, char **argv) {
     setvbuf(stdout, NULL, _IOLBF, 0);
     void *L = dlopen(getenv("CAT_LIB"), RTLD_NOW | RTLD_GLOBAL); if (!L) { fprintf(stderr, "cannot load CAT_LIB\n"); return 2; }
@@ -76,16 +112,19 @@ int main(int argc, char **argv) {
     sm((void *)handler); ss((void *)handler);
     int only_f = -1; size_t only_len = 0;
     if (argc >= 5 && !strcmp(argv[1], "replay") && !strcmp(argv[2], "huge")) { verbose = 1; only_f = atoi(argv[3]); only_len = strtoull(argv[4], NULL, 10); setenv("C18_HUGE", "1", 1); goto huge; }
+    if (argc >= 7 && !strcmp(argv[1], "replay") && !strcmp(argv[2], "kinds")) { verbose = 1; kinds_one(atoi(argv[3]), strtoul(argv[4], NULL, 10), atoi(argv[5]), strtoul(argv[6], NULL, 10)); printf(nsig ? "VERDICT violation %s\n" : "VERDICT ok\n", nsig ? sigs[0] : ""); return nsig ? 1 : 0; }
     if (argc >= 7 && !strcmp(argv[1], "replay")) { verbose = 1; one(atoi(argv[2]), strtoul(argv[3], NULL, 10), atoi(argv[4]), atoi(argv[5]), atoi(argv[6]), argc > 7 ? atoi(argv[7]) : 0); printf(nsig ? "VERDICT violation %s\n" : "VERDICT ok\n", nsig ? sigs[0] : ""); return nsig ? 1 : 0; }
     size_t nmax = argc > 1 ? strtoul(argv[1], NULL, 10) : 80;
     for (int f = 0; f < 7; f++) for (size_t n = 1; n <= nmax; n++) for (int al = 0; al < 16; al++) {
         if (al % ESZ[f]) continue;                                /* pointers of the element type are kept aligned for it */
-        int nv = f == 0 ? 4 : f == 2 ? 7 : f == 3 ? 10 : f == 6 ? 2 : 1;
+        int nv = f == 0 ? 8 : f == 2 ? 7 : f == 3 ? 10 : f == 6 ? 2 : 1;
         for (int v = 0; v < nv; v++) for (int slack = 0; slack < ((f == 0 || f == 2 || f == 3) ? 2 : 1); slack++) for (int bm = 0; bm < 3; bm++) one(f, n, al, v, slack * 3, bm);
     }
     /* larger sizes around the chunking of the primitives */
     static const size_t BIG[] = { 255, 256, 257, 511, 512, 513, 1000, 1023, 1024, 1025, 2000 };
     for (int f = 0; f < 7; f++) for (int b = 0; b < 11; b++) for (int al = 0; al < 16; al++) { size_t n = BIG[b] / ESZ[f]; if (al % ESZ[f]) continue; for (int bm = 0; bm < 3; bm += 2) { one(f, n, al, f == 0 || f == 2 || f == 3 ? 1 : 0, 0, bm); if (f == 2 || f == 3) one(f, n, al, 3, 0, bm); } }
+    { static const size_t SZ[] = { (1u << 20) - 4096, 1u << 20, (1u << 20) + 4096 + 64, 3u << 20 }; static const size_t OFF[] = { 0, 8, 100 };
+      for (int f = 0; f < 7; f++) for (int si = 0; si < 4; si++) for (int kind = 0; kind < 4; kind++) for (int oi = 0; oi < 3; oi++) { if (OFF[oi] % ESZ[f]) continue; kinds_one(f, SZ[si], kind, OFF[oi]); } }
     /* sizes at and above 4 GiB with the object size known to the library (a 32 MiB memory file mapped repeatedly backs the range):
      * the call must either refuse or really erase - samples across the whole range are inspected */
 huge:
